@@ -595,7 +595,7 @@ def section_minimize(env, ctx, model):
     objs = ["quad", "quartic", "coupled"]
     # every method x forms
     for mi, method in enumerate(methods):
-        forms = list(range(nf)) if ctx.thorough else [(2 * mi) % nf, (2 * mi + 5) % nf, 6 + (mi % 4)]
+        forms = list(range(nf)) if ctx.thorough else [(2 * mi + int(rng.integers(0, nf))) % nf, 4 + ((mi + int(rng.integers(0, 6))) % 6)]
         for fi in dict.fromkeys(forms):
             for spelled in ([method, method.lower()] if (ctx.thorough or fi == forms[0]) else [method]):
                 case = {"form": FORMS[fi], "obj": objs[(mi + fi) % 3], "seed": int(rng.integers(0, 2**31)), "method": spelled, "scenario": "default"}
@@ -603,7 +603,7 @@ def section_minimize(env, ctx, model):
     # every keyword in a scenario where it matters
     for scen, ms in SCENARIO_METHODS.items():
         for k, method in enumerate(ms):
-            forms = list(range(nf)) if ctx.thorough else [(k * 3 + len(scen)) % nf, 6 + ((k + len(scen)) % 5)]
+            forms = list(range(nf)) if ctx.thorough else [int(rng.integers(0, nf))]
             for fi in dict.fromkeys(forms):
                 case = {"form": FORMS[fi], "obj": objs[(k + fi) % 3], "seed": int(rng.integers(0, 2**31)), "method": method, "scenario": scen}
                 run_minimize_case(env, ctx, model, case)
